@@ -52,6 +52,7 @@ package helper
 //@   ensures [C11,C19] result == (annOf(set) != nil && annOf(set).has(PausedReconcileAnn) && annOf(set)[PausedReconcileAnn] == "true")
 
 //@ func GetMaxReplicaCountAndDeleteSlots
+//@   lemmas count_bound, count_store, count_ext, desired_bridge
 //@   results bound, eff
 //@   requires replicas >= 0
 //@   requires replicas + card(deleteSlots) <= MaxInt32
@@ -79,6 +80,7 @@ package helper
 //@     invariant lenl: len(L) == card(C0)
 
 //@ func GetPodOrdinalsFromReplicasAndDeleteSlots
+//@   lemmas count_bound, count_store, card_range, desired_bridge
 //@   requires replicas >= 0
 //@   requires replicas + card(deleteSlots) <= MaxInt32
 //@   ensures [C01] members: forall x int32 :: {result.has(x)} result.has(x) <==> desired(replicas, old(dom(deleteSlots)), x)
@@ -92,6 +94,7 @@ package helper
 //@   at exit: assert bridge: forall x int32 :: {result.has(x)} desiredT(old(dom(deleteSlots)), dom(deleteSlots), maxReplicaCount, x)
 
 //@ func GetPodOrdinals
+//@   lemmas count_ext, count_bound
 //@   requires set != nil && replicas >= 0
 //@   requires replicas + card(slotsAnn(set)) <= MaxInt32
 //@   ensures [C01] members: forall x int32 :: {result.has(x)} result.has(x) <==> desired(replicas, slotsAnn(set), x)
@@ -99,6 +102,7 @@ package helper
 //@   ensures freshres: fresh(result)
 
 //@ func GetMaxPodOrdinal
+//@   lemmas card_nonempty, count_ext, count_bound
 //@   requires set != nil && replicas >= 0
 //@   requires replicas + card(slotsAnn(set)) <= MaxInt32
 //@   ensures [C01] none: replicas == 0 ==> result == -1
@@ -112,6 +116,7 @@ package helper
 //@     invariant forall x int32 :: {D[x]} {count(S, 0, x)} D[x] <==> desired(replicas, S, x)
 
 //@ func GetMinPodOrdinal
+//@   lemmas card_nonempty, count_ext, count_bound
 //@   requires set != nil && replicas >= 0
 //@   requires replicas + card(slotsAnn(set)) <= MaxInt32
 //@   ensures [C01] none: replicas == 0 ==> result == MaxInt32
